@@ -496,9 +496,11 @@ fn gen_spelling(r: &mut Rng) -> String {
 }
 
 fn gen_key(r: &mut Rng) -> String {
-    const POOL: [&str; 16] = [
+    const POOL: [&str; 30] = [
         "", "a", "b", "aa", "A", "\u{e000}", "\u{ffff}", "\u{10000}", "\u{10ffff}", "\u{d7ff}", "\u{10000}a", "a\u{e000}",
         "z", "\u{e9}", "\"\\\n", "\u{0}",
+        // keys that read as numbers, booleans, null (a key deserializer must hand them over as strings)
+        "0", "42", "007", "+5", "-3", "18446744073709551615", "1.0", "1e3", "true", "false", "null", "-", "NaN", "9223372036854775808",
     ];
     if r.chance(1, 40) {
         TOKEN.to_string()
@@ -815,6 +817,28 @@ pub fn generate_c18(args: &Args, out: &mut Out) {
                     out.case(|| case_j(&J::Number(serde_json::Number::from_f64(y).unwrap())));
                 }
             }
+        }
+    }
+    // deep nesting (beyond serde_json's own parser limit of 128): arrays of several items and
+    // objects of several members under 64..300 wrappers, both directions
+    for depth in [64usize, 126, 127, 128, 129, 130, 200, 300] {
+        for shape in 0..3 {
+            let mut v = Value::Array(vec![num("1"), num("2"), Value::Array(vec![num("3"), Value::Null]), num("4")]);
+            if shape == 2 {
+                v = obj(vec![("b", num("1")), ("a", Value::Array(vec![num("2"), num("3")])), ("c", Value::Null)]);
+            }
+            for i in 0..depth {
+                v = match (shape, i % 2) {
+                    (0, _) => Value::Array(vec![v]),
+                    (1, 0) => Value::Array(vec![Value::Boolean(true), v, Value::Boolean(false)]),
+                    (1, _) => obj(vec![("k", v), ("z", Value::Null)]),
+                    (_, 0) => obj(vec![("k", v)]),
+                    _ => Value::Array(vec![v, num("0")]),
+                };
+            }
+            out.case(|| case_v("is", &v));
+            out.case(|| case_j(&j_of_value(&v)));
+            crate::common::drop_deep(v);
         }
     }
     for wide in wide_values(&mut r, false) {
